@@ -1554,6 +1554,16 @@ class Not(LogicalOperator[T]):
 
 @dataclass(eq=False, repr=False)
 class LogicalBinaryOperator(LogicalOperator[T], BinaryOperator, ABC):
+    def _invert_(self):
+        # A union below this operator yields one output per satisfied operand; negating the outputs of this operator one
+        # by one is then not the negation of the whole condition. Push the negation down by De Morgan instead.
+        if any(isinstance(node, Union) for node in self._descendants_):
+            if isinstance(self, AND):
+                return optimize_or(self.left._invert_(), self.right._invert_())
+            if isinstance(self, OR):
+                return AND(self.left._invert_(), self.right._invert_())
+        return Not(self)
+
     def __post_init__(self):
         if isinstance(self.left, ResultQuantifier):
             raise UnSupportedOperand(self.__class__, self.left)
